@@ -43,7 +43,11 @@ From RB Require Import Base.Val.
 Import ListNotations.
 Open Scope N_scope.
 
-Record path := { p_pid : N; p_src : N; p_tok : N }.
+(* p_mark is a ghost: Source::is_llgr_stale() of the path's source when the change (or RIB
+   state) listing the path was produced.  The code never reads it -- it reads the live flag
+   of the shared Source -- and neither does [process_change]; it lets the contract of the
+   change stream say "the exported form of this path changed" when a source is marked. *)
+Record path := { p_pid : N; p_src : N; p_tok : N; p_mark : bool }.
 
 Record change := { c_net : N; c_id : N; c_bc : bool; c_ac : bool;
                    c_repl : option N; c_paths : list path }.
@@ -170,7 +174,11 @@ Inductive label :=
 | RibFree (net : N) (emit : bool)
     (* the last entry of the prefix goes: id freed; a change with no paths is emitted iff [emit] *)
 | LlgrFlip (src : N) (b : bool)
-    (* Source::mark_llgr_stale / clear_llgr_stale *)
+    (* Source::mark_llgr_stale / clear_llgr_stale, bare *)
+| LlgrMark (src : N) (rs : list (N * bool * bool * option N * list path))
+    (* Table::restale_llgr, one critical section: the flag is set, the affected destinations
+       are re-sorted and their changes (net, best_changed, any_changed, replaced, ranked list)
+       are emitted *)
 | Deliver      (* handle_prefix_update on the oldest queued change *)
 | Flush        (* flush_tx: drain_messages, bytes reach the neighbour *)
 | Register     (* on_established: initial dump + channel registration, one critical section *)
@@ -301,14 +309,21 @@ Definition push (c : change) (n : nbr) : nbr :=
 Definition with_nbr (s : state) (n : nbr) : state :=
   {| s_rib := s_rib s; s_llgr := s_llgr s; s_nbr := n |}.
 
+Definition rib_set (s : state) (x : N * bool * bool * option N * list path) : state :=
+  let '(net, bc, ac, repl, paths) := x in
+  let '(r', i) := rset net paths (s_rib s) in
+  {| s_rib := r'; s_llgr := s_llgr s;
+     s_nbr := push {| c_net := net; c_id := i; c_bc := bc; c_ac := ac;
+                      c_repl := repl; c_paths := paths |} (s_nbr s) |}.
+
+Definition set_llgr (src : N) (fl : list N) : list N := if memN src fl then fl else src :: fl.
+
 Definition step (s : state) (l : label) : state :=
   let n := s_nbr s in
   match l with
-  | RibSet net bc ac repl paths =>
-      let '(r', i) := rset net paths (s_rib s) in
-      {| s_rib := r'; s_llgr := s_llgr s;
-         s_nbr := push {| c_net := net; c_id := i; c_bc := bc; c_ac := ac;
-                          c_repl := repl; c_paths := paths |} n |}
+  | RibSet net bc ac repl paths => rib_set s (net, bc, ac, repl, paths)
+  | LlgrMark src rs =>
+      fold_left rib_set rs {| s_rib := s_rib s; s_llgr := set_llgr src (s_llgr s); s_nbr := n |}
   | RibTouch net =>
       match rfind net (s_rib s) with
       | Some _ => s
@@ -326,7 +341,7 @@ Definition step (s : state) (l : label) : state :=
       end
   | LlgrFlip src b =>
       {| s_rib := s_rib s;
-         s_llgr := if b then (if memN src (s_llgr s) then s_llgr s else src :: s_llgr s)
+         s_llgr := if b then set_llgr src (s_llgr s)
                    else filter (fun x => negb (x =? src)) (s_llgr s);
          s_nbr := n |}
   | Deliver =>
@@ -444,13 +459,26 @@ Definition v_check (g : cfg) (s : state CE) : val :=
       VB (rows_eqb (sort_rows (map row_kv (n_mirror (s_nbr s))))
                    (sort_rows (map row_kv (fresh_of g s))))].
 
-Definition observe (g : cfg) (s : state CE) (l : label) : val :=
+Definition v_set (g : cfg) (s : state CE) (x : N * bool * bool * option N * list path) : val :=
+  let '(net, bc, ac, repl, paths) := x in
+  VL [VN 0; rib_id net (cstep g s (RibSet net bc ac repl paths)); VN net; VB bc; VB ac;
+      VOpt VN repl; VList v_path paths].
+
+Fixpoint v_sets (g : cfg) (s : state CE) (rs : list (N * bool * bool * option N * list path))
+  : list val :=
+  match rs with
+  | [] => []
+  | x :: t => let '(net, bc, ac, repl, paths) := x in
+              v_set g s x :: v_sets g (cstep g s (RibSet net bc ac repl paths)) t
+  end.
+
+Definition observe1 (g : cfg) (s : state CE) (l : label) : val :=
   let s' := cstep g s l in
   let n := s_nbr s in
   let n' := s_nbr s' in
   match l with
-  | RibSet net bc ac repl paths =>
-      VL [VN 0; rib_id net s'; VN net; VB bc; VB ac; VOpt VN repl; VList v_path paths]
+  | RibSet net bc ac repl paths => v_set g s (net, bc, ac, repl, paths)
+  | LlgrMark _ _ => VL [VN 1]
   | RibTouch net => VL [VN 0; VL []]
   | RibFree net emit =>
       if emit then match rfind net (s_rib s) with
@@ -469,10 +497,17 @@ Definition observe (g : cfg) (s : state CE) (l : label) : val :=
   | Refresh => VL [VN 5; VB (pending_empty n')]
   end.
 
+Definition observe (g : cfg) (s : state CE) (l : label) : list val :=
+  match l with
+  | LlgrMark src rs =>
+      VL [VN 1] :: v_sets g {| s_rib := s_rib s; s_llgr := set_llgr src (s_llgr s); s_nbr := s_nbr s |} rs
+  | _ => [observe1 g s l]
+  end.
+
 Fixpoint observe_from (g : cfg) (s : state CE) (ls : list label) : list val :=
   match ls with
   | [] => [VL [VN 6; VB (pending_empty (s_nbr s)); v_check g s]]
-  | l :: t => observe g s l :: observe_from g (cstep g s l) t
+  | l :: t => observe g s l ++ observe_from g (cstep g s l) t
   end.
 
 Definition run_case (g : cfg) (ls : list label) : val := VL (observe_from g (state0 CE) ls).
